@@ -15,6 +15,7 @@ import itertools
 import logging
 import threading
 import time
+import traceback
 from typing import Optional
 
 from harness import core
@@ -1016,7 +1017,12 @@ def run_history(hist: dict):
             outs += [out, pr, _show_tok(owner_after)]
             ev = {"op": list(op), "out": out, "probe": pr, "owner_before": owner_before, "owner_after": owner_after,
                   "count_before": count_before, "count_after": w.obj.count, "auto": list(w.auto_log[n_auto:])}
-            if op[0] not in ("burn", "recreate", "stopctx", "newctx", "newproxy", "setcounter"):
+            if op[0] in ("newctx", "newproxy") and not out.isdigit():
+                # the context could not connect / the proxy could not be made (bounded wait expired, exception): the history
+                # ends here, the oracle reports it
+                trace.append(ev)
+                break
+            if op[0] not in ("burn", "recreate", "stopctx", "newctx", "newproxy", "setcounter") and op[1] < len(w.proxies):
                 t = w.toks(op[1])
                 ev["toks"] = t
                 lines.append(f"tok {op[1]}")
@@ -1026,6 +1032,8 @@ def run_history(hist: dict):
                     lines.append(f"counter {ci}")
                     outs.append(str(w.contexts[ci]._unique_counters.get("$lock_", 0)))
             trace.append(ev)
+            if out == "hang" and pr.startswith("alive"):
+                break                                    # an unanswered request with a live worker: everything after it is a consequence
             if not pr.startswith("alive"):
                 dead_ops += 1
                 if dead_ops > AFTER_DEATH_OPS:
@@ -1118,6 +1126,9 @@ def oracle(hist: dict, trace: list):
                 return F("recreated-object-not-fresh", f"owner {after}, counter {ev['count_after']}")
             period = None
             continue
+        if kind in ("newctx", "newproxy") and not out.isdigit():
+            return F(f"request-unanswered:{kind}:{st}" if out == "hang" else f"unexpected-result:{kind}:{st}:{out}",
+                     f"a client could not {'connect' if kind == 'newctx' else 'obtain a proxy'}: {out}")
         if kind in ("stopctx", "newctx", "newproxy", "setcounter"):
             if before != after:
                 which = {"stopctx": "lock-changed-by-disconnect", "newctx": "lock-changed-by-connect", "newproxy": "lock-changed-by-new-proxy",
@@ -1274,7 +1285,7 @@ def gen_history(rng, max_ops: int) -> dict:
             ops.append(["call", p, rng.choice(["n", "n", "n", "w", "b", "b", "b", "b", "b"])])
         elif k < 94:
             ops.append(["burn", rng.choice([c for c in range(len(names)) if c not in stopped])])
-        elif k < 96:
+        elif k < 95:
             ops.append(["recreate"])
         elif k < 98:
             live = [c for c in range(1, len(names)) if c not in stopped]
@@ -1353,6 +1364,29 @@ def corpus_histories() -> list:
         add(f"counter-distance-{D}", "srv", ["cli"], [1, 1, 0],
             [["lock", 0, None], ["setcounter", 1, D], ["lock", 1, None], ["call", 1, "b"], ["unlock", 1, None], ["islocked", 2], ["call", 0, "n"],
              ["unlock", 0, None], ["setcounter", 1, 2 * D], ["lock", 1, None], ["lock", 0, None], ["call", 0, "b"]])
+    # connection histories: the number of connected clients goes down and up again while one client stays; every order of
+    # (two leave, two arrive); the stayer walks through the lock protocol between the events, newcomers probe on arrival
+    import itertools as _it
+    k = 0
+    for perm in _it.permutations(["stop-x", "stop-y", "new-1", "new-2"]):
+        for stayer in (1, 2, 3):
+            k += 1
+            others = [c for c in (1, 2, 3) if c != stayer]
+            ctxs = ["cli", "cli", "gui"]
+            proxies = [1, 2, 3]                       # proxy i-1 lives in context i
+            ops = [["lock", others[0] - 1, None], ["unlock", others[0] - 1, None]]
+            nctx, nprox = 4, 3
+            steps = iter([[["lock", stayer - 1, None], ["call", stayer - 1, "b"]], [["islocked", stayer - 1], ["call", stayer - 1, "n"]],
+                          [["unlock", stayer - 1, None], ["lock", stayer - 1, "x"]], [["call", stayer - 1, "w"], ["unlock", stayer - 1, "x"], ["lock", stayer - 1, None]]])
+            for ev in perm:
+                if ev.startswith("stop"):
+                    ops.append(["stopctx", others[0 if ev == "stop-x" else 1]])
+                else:
+                    ops += [["newctx", "cli" if ev == "new-1" else "gui"], ["newproxy", nctx], ["islocked", nprox], ["call", nprox, "b"], ["lock", nprox, None],
+                            ["unlock", nprox, None]]
+                    nctx, nprox = nctx + 1, nprox + 1
+                ops += next(steps)
+            H.append({"srv": "srv", "ctxs": ctxs, "proxies": proxies, "ops": ops, "cell": f"corpus/connections-{k}", "conn": True})
     # only the owning context
     add("owning-context-only", "lab", [], [0, 0, 0],
         [["call", 0, "b"], ["lock", 1, None], ["call", 0, "n"], ["call", 1, "n"], ["lock", 2, None], ["force", 0], ["lock", 2, "lab"],
@@ -2405,7 +2439,13 @@ class C04(Prop):
         """Run histories on the real code, diff with the model, evaluate the oracle."""
         all_lines, all_outs, spans = [], [], []
         for h in hists:
-            lines, outs, trace = run_history(h)
+            try:
+                lines, outs, trace = run_history(h)
+            except Exception as e:  # noqa — one scenario going wrong must not take the run down: it is reported with its history
+                failures.setdefault(f"scenario-aborted:{type(e).__name__}", []).append(
+                    (h, f"running the history raised {type(e).__name__}: {str(e)[:200]} ({traceback.format_exc().strip().splitlines()[-3][:160]})"))
+                res.count("scenarios_aborted")
+                continue
             spans.append((len(all_lines), len(lines), h))
             all_lines += lines
             all_outs += outs
@@ -2564,7 +2604,11 @@ class C04(Prop):
         ffail: dict = {}
         with _Instrumented():
             for spec in fault_specs(quick):
-                lines, outs, obs = run_fault(spec)
+                try:
+                    lines, outs, obs = run_fault(spec)
+                except Exception as e:  # noqa
+                    ffail.setdefault(f"scenario-aborted:{type(e).__name__}:fault:{spec['req']}:{spec['state']}", []).append((spec, f"{type(e).__name__}: {str(e)[:200]}"))
+                    continue
                 res.note_case(("fault", spec["state"], spec["req"]), nontrivial=True)
                 res.count("fault_scenarios")
                 res.traces_validated += 1
@@ -2579,7 +2623,11 @@ class C04(Prop):
             for (n, over) in sizes:
                 for variant in ("free", "held"):
                     spec = {"kind": "burst", "variant": variant, "n": n, "over": over}
-                    lines, outs, obs = run_burst(spec)
+                    try:
+                        lines, outs, obs = run_burst(spec)
+                    except Exception as e:  # noqa
+                        ffail.setdefault(f"scenario-aborted:{type(e).__name__}:burst:{variant}", []).append((spec, f"{type(e).__name__}: {str(e)[:200]}"))
+                        continue
                     res.note_case(("burst", variant, n), nontrivial=True)
                     res.count("burst_scenarios")
                     res.count("burst_requests", n)
@@ -2643,7 +2691,11 @@ class C04(Prop):
                           "make_unique_token, weighted + pct policies + change-point sweeps, worker request log replayed on the model")
         failures: dict = {}
         with _Instrumented():
-            self._run_batch(ctx, corpus_histories(), res, "corpus", failures)
+            corpus = corpus_histories()
+            if ctx.quick:                                  # every order of events once (the stayer rotates); all 72 in the thorough tier
+                conn = [h for h in corpus if h.get("conn")]
+                corpus = [h for h in corpus if not h.get("conn")] + conn[ctx.seed % 3::3]
+            self._run_batch(ctx, corpus, res, "corpus", failures)
             self._run_batch(ctx, sweep_histories(), res, "sweep", failures)
             n = ctx.scale(400, 4000)
             max_ops = ctx.scale(40, 400)
@@ -2771,7 +2823,10 @@ class C04(Prop):
             return Failure(sig, f"{sig}: {detail}", rp)
         h = rp["history"]
         with _Instrumented():
-            _, _, tr = run_history(h)
+            try:
+                _, _, tr = run_history(h)
+            except Exception as e:  # noqa
+                return Failure(f"scenario-aborted:{type(e).__name__}", f"running the history raised {type(e).__name__}: {e}", rp)
             fs = oracle(h, tr)
         if not fs:
             return None
